@@ -643,6 +643,7 @@ func bracedVal(s string, h int) int { return hexAt(s, h+4, bracedN(s, h+4)) }
 //@   loop 3 invariant [skip] skipTrivia(l.input, commentEnd(l.input, l.position)) == skipTrivia(l.input, old(l.position))
 //@   loop 3 invariant [nl] l.hadNewlineBefore == hasNL(l.input, old(l.position), l.position)
 //@   loop 3 decreases len(l.input) - l.position
+//@   loop 2 each [comment.distinct@C15] len(l.leadingComments) == atHead(len(l.leadingComments))+1 && len(l.leadingComments[len(l.leadingComments)-1]) > 0
 //@   loop 3 each [verbatim@C15] writeSeq(evByte(byteAt(l.input, atHead(l.position)))) && l.position == atHead(l.position)+1
 //@   ensures [cursor] lexInv(l)
 //@   ensures [skip] l.position == skipTrivia(l.input, old(l.position))
@@ -666,6 +667,7 @@ func bracedVal(s string, h int) int { return hexAt(s, h+4, bracedN(s, h+4)) }
 //@   ensures [num] implies(specDigit(old(l.CurrentChar)), result.Type == token.INT || result.Type == token.FLOAT)
 //@   ensures [op.type] implies(old(l.position) < len(l.input) && !specLetter(old(l.CurrentChar)) && !specDigit(old(l.CurrentChar)) && !isQuote(old(l.CurrentChar)), result.Type == specTokType(old(l.CurrentChar), byteAt(l.input, old(l.position)+1)))
 //@   ensures [op.text] implies(old(l.position) < len(l.input) && old(l.CurrentChar) < 128 && !specLetter(old(l.CurrentChar)) && !specDigit(old(l.CurrentChar)) && !isQuote(old(l.CurrentChar)), litEq(result.Literal, l.input, old(l.position), l.position))
+//@   ensures [illegal.extent@C10] implies(old(l.position) < len(l.input) && old(l.CurrentChar) >= 128, l.position <= old(l.position)+4 && forall(old(l.position)+1, l.position, func(k int) bool { return utf8Cont(byteAt(l.input, k)) }))
 //@   ensures [quote.type] implies(isQuote(old(l.CurrentChar)) && result.Type != token.ILLEGAL, result.Type == ite(old(l.CurrentChar) == '`', token.RAW_STRING, token.STRING))
 //@   ensures [literal.closed@C12] implies(isQuote(old(l.CurrentChar)) && result.Type != token.ILLEGAL, l.position-1 > old(l.position) && l.position-1 < len(l.input) && l.input[l.position-1] == old(l.CurrentChar))
 //@   ensures [literal.open@C12] implies(isQuote(old(l.CurrentChar)) && result.Type == token.ILLEGAL, l.position >= len(l.input))
